@@ -63,8 +63,10 @@ class Database(ImpExp):
     def encrypted_branch_id(self, *args) -> str:
         """Provided an ordered list of names construct a key and then encrypt it."""
         rnd = rndstr(32)
+        # The encrypter pads the text with blanks and strips trailing blanks when decrypting:
+        # an (empty) last item keeps a key that ends in a blank from coming back shorter.
         return base64.b64encode(
-            self.crypt.encrypt(lv_pack(rnd, self.branch_key(*args)).encode())
+            self.crypt.encrypt(lv_pack(rnd, self.branch_key(*args), "").encode())
         ).decode("utf-8")
 
     def decrypt_branch_id(self, key: str) -> List[str]:
